@@ -165,6 +165,43 @@ def do_chunk(chunk):
     return acc
 
 
+def do_errno_sweep(args):
+    """The cost a generated setting spells is the cost crypt applies, whatever errno holds on entry (the number
+    parsers use strtoul, which reports overflow through errno): cheap explicit costs of the linear methods, hashed
+    with errno preset to 0, ERANGE, EINVAL and ENOENT, against the reference model."""
+    seed, = args
+    from .. import ref
+    acc = common.Acc()
+    w = rt.vw(FL)
+    rb = facts.rbytes_pattern("rnd", 64, seed)
+    for m, counts in (("sha512crypt", (1000, 1999, 20000)), ("sha256crypt", (1000, 2001, 20000)), ("sha1crypt", (4, 100, 3000)),
+                      ("sunmd5", (1, 100)), ("bsdicrypt", (1, 725, 4095))):
+        for c in counts:
+            res, end = w.run([rt.gensalt_line("rn", gen.TAG[m], c, rb, 64, 192)], 60)
+            if end is not None or res[0]["r"] != "O":
+                continue
+            g = rt.out_of(res[0])
+            if m == "sunmd5" and gen.cost_units(g, 2) > 3000000:
+                continue
+            want = ref.model_hash(m, b"pw", g)
+            for e in (0, 34, 22, 2):
+                ln = rt.crypt_line("crypt_rn", 0, b"pw", g)
+                res2, end2 = w.run([rt.obj_line(0), "preerrno %d" % e, ln], 120)
+                if end2 is not None:
+                    acc.inconc("errno sweep: no answer for %r" % g)
+                    continue
+                acc.count("evaluations")
+                acc.count("errno_sweep_hashes")
+                acc.cls((m, "errno-sweep", e))
+                h = rt.hash_of(res2[-1])
+                if h is None or (want is not None and h != want):
+                    acc.violation("%s/applied-cost-differs/%s" % (PID, m),
+                                  "crypt(%r) with errno %d on entry gives %r, the reference model at the spelled cost gives %r" % (
+                                      g, e, h, want), rt.replay_obj(FL, [rt.obj_line(0), "preerrno %d" % e, ln]))
+    w.run(["preerrno 0"], 30)
+    return acc
+
+
 def do_lower_bound(args):
     """The top of the cost range cannot be hashed within any budget, but its opposite can be observed: a call that
     asks for 2^31 or more iterations and RETURNS A HASH within a few seconds has not done the work (no machine
@@ -213,6 +250,8 @@ def run(tier):
           ("sha512crypt", b"$6$", 999999999, 4, "zero")]          # each needs minutes to days; margins of two orders of magnitude
     for acc in pool.pmap(do_lower_bound, lb):
         run_.merge(acc)
+    for acc in pool.pmap(do_errno_sweep, [(run_.seed + i,) for i in range(2 if tier == "quick" else 16)]):
+        run_.merge(acc)
     for acc in pool.pmap(do_chunk, pool.chunks(cases, 150)):
         run_.merge(acc)
     a = run_.acc
@@ -226,6 +265,7 @@ def run(tier):
         "cost_fields_decoded": int(a.n.get("cost_decoded", 0)),
         "applied_cost_checked_against_model": int(a.n.get("model_checks", 0)),
         "sunmd5_wrap_probes": int(a.n.get("wrap_probes", 0)),
+        "hashes_of_generated_costs_under_four_entry_errnos": int(a.n.get("errno_sweep_hashes", 0)),
         "flavour": FL,
     }
     return run_.finish(cov, assumptions=[
